@@ -48,6 +48,20 @@ impl Default for TulispContext {
     }
 }
 
+#[cfg(tulisp_verif)]
+impl TulispContext {
+    /// Verification hook: the names of all interned symbols with their symbol objects, sorted by name.
+    pub fn verif_obarray(&self) -> Vec<(String, TulispObject)> {
+        let mut all: Vec<(String, TulispObject)> = self
+            .obarray
+            .iter()
+            .map(|(name, sym)| (name.clone(), sym.clone()))
+            .collect();
+        all.sort_by(|a, b| a.0.cmp(&b.0));
+        all
+    }
+}
+
 impl TulispContext {
     /// Creates a TulispContext with an empty global scope.
     pub fn new() -> Self {
